@@ -262,7 +262,45 @@ def run(world, tier, info, only=None):
     else:
         ck.missing("R5", PD)
     ck.analysed = {"functions": [SF, MP, EX, PD]}
+    _dependency_dir(ck, w)
     return ck.finish(info)
+
+
+def _dependency_dir(ck, w):
+    """R3 for Lockfile::paths: the outputs of a dependency go under dependencies/<lock.name>/..., and lock.name is the name gen_locks
+    made unique (suffix _0, _1 for two projects of the same name; C31 R4). Any other directory name (the dependency's own project name)
+    puts two same-named projects into one directory."""
+    P = "veryl_metadata::lockfile::Lockfile::paths"
+    if P not in w.fns:
+        ck.missing("R3", P)
+        return
+    sm = w.fns[P]
+    g = Fn(w.mir(P))
+    joins = []
+    for bi, t in g.calls(r"std::path::Path::join$|std::path::PathBuf::push$"):
+        if len(t["args"]) < 2:
+            continue
+        d = repr(g.describe(t["args"][1], 8))
+        joins.append((bi, t, d))
+    named = [(bi, t) for bi, t, d in joins if re.search(r"'name', 'veryl_metadata::lockfile::Lock'", d) and "Iterator>::next" in d]
+    other = [(bi, t) for bi, t, d in joins if re.search(r"'name', 'veryl_metadata::metadata::Project'|'name', 'veryl_metadata::project::Project'", d)]
+    ok = bool(named) and not other
+    # the PathSet's dst is built on that join
+    on_dst = False
+    for bi, b in enumerate(g.blocks):
+        for st in b["s"]:
+            if st[0] == "=" and st[2][0] == "agg" and isinstance(st[2][1], dict) and (st[2][1].get("adt") or "").endswith("veryl_path::PathSet"):
+                fl = st[2][1].get("fields") or []
+                for k, o in enumerate(st[2][2]):
+                    if k < len(fl) and fl[k] in ("dst", "1") and isinstance(o, list) and o[0] != "k":
+                        pv = g.prov(o, depth=16)
+                        if any(x[0] == "call" and x[2] in [jb for jb, _ in named] for x in pv if len(x) > 2):
+                            on_dst = True
+    ck.ob("R3", "injective:Lockfile::paths/dependency-dir-is-lock.name", ok and (on_dst or None), site(sm, (named or other or [(0, {"l": None})])[0][1]["l"]),
+          "a dependency's outputs go under the directory named by the loop's lock.name (unique by gen_locks)" if ok else
+          "the dependency output directory is not named by lock.name%s: two dependency projects of the same name share one directory and "
+          "overwrite each other's outputs" % (" but by the dependency's own project name" if other else ""))
+
 
 
 def _short(p):
